@@ -169,16 +169,16 @@ PROPS["C05"] = {
     "level": "exploration",
     "technique": "differential (twin-run) property testing: the same generated history is executed through the wire-born and the decoded ingress in two synctest bubbles with identical virtual clocks and compared step by step",
     "level_text": ("Generated configurations (cookie secret, NSID, chaos, client and per-entry rate limits, hosts file, empty zones), upstream tables (positive, CNAME chains fully/partly present, NXDOMAIN, NODATA, RRSIG-bearing with generated windows, >1232/>4096-byte answers, SERVFAIL with/without EDE, EDE-bearing answers with foreign OPT options, ECS-scoped answers, escaped/binary labels) "
-                   "and histories of byte-level query packets (every flag, opcodes, classes, OPT versions/ext-rcode/options incl. hand-encoded malformed ECS, count edits, truncation, compression pointers, trailing bytes) and sleeps are run twice on the real default chain - all packets wire-born vs all decoded - under identical virtual clocks; "
+                   "and histories of byte-level query packets (every flag, opcodes, classes, OPT versions/ext-rcode/options incl. hand-encoded malformed ECS, count edits, truncation, compression pointers, trailing bytes) and sleeps are run twice on the real default chain - all packets wire-born vs all decoded - under identical virtual clocks; in half of the cases three quarters of the wire-born UDP packets enter the way the batch UDP reader drives them (Server.ServeRawInline, and Server.ServeRawReplay of the same packet when the inline pass hands it off without writing), and one case in three with a per-entry limit carries a burst on one cached question whose answer does not fit the client's datagram, so a token charged twice across the two passes empties the bucket one packet early; "
                    "decoded replies (header bits, rcode, question, per-section record multisets with TTLs, OPT version/size/DO/options), drop-vs-reply, cache contents with remaining lifetimes, failure-cache state and the upstream call count must be identical after every step. Thorough tier only: unit 'parsewire-fuzz' drives Request.ParseWire with Go's coverage-guided fuzzer (seeded with EDNS / cookie / NSID / keepalive / ECS questions): whatever it accepts the library must decode, and every accessor the chain reads (ID, type, class, flags, opcode, OPT presence, size, DO, version, option presence, cookie halves, materialised question) must equal the decoded request's. Exploration."),
-    "level_note": "Trusted: miekg/dns Unpack for decoding both transcripts; the harness transports stand in for the UDP/TCP engine jobs (StrictSlots + LeaseWire). Subtree-cut / RFC 8198 admission needs resolver provenance: in two thirds of the cases the stub serves a zone (sz.example.org.) whose NXDOMAIN / NODATA answers carry complete NSEC proofs and are marked through the resolver-to-cache provenance seam (middleware.MarkValidatedNegativeProofResponse) for CD=0 resolutions, exactly as the validating resolver marks them, so the wire ladder's cut rung and the decoded denial rungs are reached (class wire:cut_served); inline-vs-worker replay is not compared.",
+    "level_note": "Trusted: miekg/dns Unpack for decoding both transcripts; the harness transports stand in for the UDP/TCP engine jobs (StrictSlots + LeaseWire). Subtree-cut / RFC 8198 admission needs resolver provenance: in two thirds of the cases the stub serves a zone (sz.example.org.) whose NXDOMAIN / NODATA answers carry complete NSEC proofs and are marked through the resolver-to-cache provenance seam (middleware.MarkValidatedNegativeProofResponse) for CD=0 resolutions, exactly as the validating resolver marks them, so the wire ladder's cut rung and the decoded denial rungs are reached (class wire:cut_served). The inline pass and the replay are called back to back on one goroutine; the reader/worker hand-over of the real engine (ring, staged burst) is C10's ground.",
     "rule": ("evaluations = histories (2-14 steps, each run twice). Non-trivial = the wire run really served from the byte ladder (exact hit, alias chase or cached failure, measured from dns_cache_wire_fastpath_total deltas) or contained a byte-edited packet; distinct = hash(step shapes, config)."),
     "units": {
         "parsewire-fuzz": {"pkg": "./middleware", "engine": "fuzz", "fuzz": "FuzzVerifC05ParseWire", "run": "^FuzzVerifC05ParseWire$",
                            "tiers": {"thorough": {"fuzztime": 240, "timeout": 500, "mem_mb": 24000, "workers": 8}}},
         "twin": {"pkg": "./server", "run": "^TestVerifC05Twin$",
                  "tiers": {"quick": T(1200, 8, timeout=600), "thorough": T(40000, 12, timeout=3400)},
-                 "floors": {"C05.twin": {"wire-served": 0.2, "wire:chase_served": 0.02, "wire:failure_served": 0.005, "wire:cut_served": 0.003, "edited-packet": 0.1, "has-dropped-packet": 0.1}}},
+                 "floors": {"C05.twin": {"wire-served": 0.2, "wire:chase_served": 0.02, "wire:failure_served": 0.005, "wire:cut_served": 0.003, "edited-packet": 0.1, "has-dropped-packet": 0.1, "wire:inline_replayed": 0.2, "oversized-hit-burst-under-entry-limit": 0.05}}},
     },
 }
 
@@ -187,7 +187,7 @@ PROPS["C04"] = {
     "technique": "history-based property testing under a virtual clock (testing/synctest): generated query/sleep/purge/late-prefetch histories against the real default chain; every record a client sees is traced (by a per-fetch stamp in its RDATA) to the upstream fetch it came from and judged by a reference lifetime model",
     "level_text": ("Histories of queries (decoded or wire-born, UDP/TCP, CD/DO/ECS/case variants), sleeps from 1 s to beyond 24 h, purges and scripted late-background-refresh orderings run against the real default chain with prefetch on/off and ECS caching on/off. "
                    "The upstream stamps each record with the fetch that produced it and, like a resolver, reports a generated delegation lease; a reference model (min of record TTLs floored at 5 s and capped at 24 h, RRSIG expiry, SOA minimum, ECS cap, lease overriding the floor) gives each fetch an upper-bound lifetime. "
-                   "Every cached record a client sees must be inside that lifetime, show a TTL no larger than what remains, never grow between hits on the same stored data, and a refresh that completed after newer client-path data was stored must not be what later lookups return. Unit 'world' repeats the lifetime oracle on the complete stack (real resolver, signed zones with generated TTLs and negative TTLs, NSEC or NSEC3): the in-memory authorities log every record they send with time and TTL, and every record of every client reply must be young enough against that log (TTL <= sent TTL - age), while a negative answer composed from cached pieces - RFC 8198 synthesis included - must not carry a TTL above its shortest piece's remaining life. Exploration."),
+                   "Every cached record a client sees must be inside that lifetime, show a TTL no larger than what remains, never grow between hits on the same stored data, and a refresh that completed after newer client-path data was stored must not be what later lookups return; an alias whose stored entries were all completed with a cached, record-less NXDOMAIN of its target must stop being answered from cache once the last such denial has run out. Unit 'world' repeats the lifetime oracle on the complete stack (real resolver, signed zones with generated TTLs and negative TTLs, NSEC or NSEC3): the in-memory authorities log every record they send with time and TTL, and every record of every client reply must be young enough against that log (TTL <= sent TTL - age), while a negative answer composed from cached pieces - RFC 8198 synthesis included - must not carry a TTL above its shortest piece's remaining life. Exploration."),
     "level_note": "Trusted: the reference lifetime model (an upper bound: sdns may expire earlier). Denial-proof and subtree-cut lifetimes are covered by C02's cache unit; DNS64 composition lifetimes are not exercised here.",
     "rule": ("evaluations = histories. Non-trivial = a cached record judged in the second half of its life or within 3 s of its end, an alias reply composed from cache, or a late refresh ordered after newer data; distinct = hash(classes, step shapes)."),
     "units": {
@@ -195,7 +195,7 @@ PROPS["C04"] = {
                   "floors": {"C04.world": {"served-from-cache": 0.3, "composed-negative-from-cache": 0.15, "rfc8198-synthesis": 0.08, "ecs-question": 0.1}}},
         "lifetime": {"pkg": "./server", "run": "^TestVerifC04Lifetime$",
                      "tiers": {"quick": T(2500, 8, timeout=600), "thorough": T(80000, 12, timeout=3400)},
-                     "floors": {"C04.lifetime": {"late-in-life": 0.15, "composed-from-cache": 0.05, "late-prefetch-judged": 0.05}}},
+                     "floors": {"C04.lifetime": {"late-in-life": 0.15, "composed-from-cache": 0.05, "late-prefetch-judged": 0.05, "alias-over-cached-denial": 0.01}}},
     },
 }
 
